@@ -279,10 +279,77 @@ func runHistory(work string, m *mdl, hs []hop) histOutcome {
 				Key: "c05:" + oracle + ":" + hstr}
 		}
 	}
+	// what every id must read: set by a successful Put, dropped when the history overwrites, damages
+	// (index file of the id, data file of the content) or specially damages anything.  "After Put
+	// returns without error GetBytes returns exactly data, until that entry is overwritten, trimmed
+	// or damaged": a Put of ANOTHER id, or of another content, is none of these.
+	expect := map[int][]byte{}
+	checkOthers := func(i, justPut int) {
+		for oi, want := range expect {
+			if oi == justPut {
+				continue
+			}
+			oid := ids[oi]
+			got := common.Safely(func() string {
+				b, _, err := c.GetBytes(oid)
+				if err != nil {
+					return "NF"
+				}
+				if !bytes.Equal(b, want) {
+					return "F other bytes " + showBytes(b)
+				}
+				return "same"
+			})
+			if got != "same" {
+				viol(i, "unrelated-entry-lost", fmt.Sprintf("id%d was stored (%d bytes) and never overwritten or damaged since; after the Put of id%d at step %d GetBytes(id%d) gives %s", oi, len(want), justPut, i, oi, trunc(got)))
+			}
+		}
+	}
 	for i, h := range hs {
 		id := ids[h.ID%len(ids)]
 		idhex := hex.EncodeToString(id[:])
 		var impl string
+		switch h.Kind {
+		case "get", "getbytes", "getfile":
+			if want, ok := expect[h.ID%len(ids)]; ok && h.Kind != "get" {
+				got := common.Safely(func() string {
+					if h.Kind == "getfile" {
+						file, _, err := c.GetFile(id)
+						if err != nil {
+							return "NF"
+						}
+						if b, _ := os.ReadFile(file); !bytes.Equal(b, want) {
+							return "a file holding other bytes " + showBytes(b)
+						}
+						return "same"
+					}
+					b, _, err := c.GetBytes(id)
+					if err != nil {
+						return "NF"
+					}
+					if !bytes.Equal(b, want) {
+						return "other bytes " + showBytes(b)
+					}
+					return "same"
+				})
+				if got != "same" {
+					viol(i, "stored-then-lost", fmt.Sprintf("id%d was stored (%d bytes) and never overwritten or damaged since, yet %s at step %d gives %s", h.ID%len(ids), len(want), h.Kind, i, trunc(got)))
+				}
+			}
+		case "special":
+			expect = map[int][]byte{}
+		case "put", "putbytes", "putoff", "putreuse", "outputfile":
+		default: // damage
+			if h.K == "a" {
+				delete(expect, h.ID%len(ids))
+			} else {
+				for oi, want := range expect {
+					if bytes.Equal(want, contents[h.C%len(contents)]) {
+						delete(expect, oi)
+					}
+				}
+			}
+		}
 		switch h.Kind {
 		case "put", "putbytes", "putoff", "putreuse":
 			d := contents[h.C%len(contents)]
@@ -334,6 +401,12 @@ func runHistory(work string, m *mdl, hs []hop) histOutcome {
 			}
 			out.tags["op:put"]++
 			if strings.HasPrefix(impl, "PUTOK") {
+				expect[h.ID%len(ids)] = d
+				checkOthers(i, h.ID%len(ids))
+			} else {
+				delete(expect, h.ID%len(ids))
+			}
+			if strings.HasPrefix(impl, "PUTOK") {
 				// direct oracle: Put then GetBytes returns the data; GetFile names a file holding it
 				got := common.Safely(func() string {
 					b, e, err := c.GetBytes(id)
@@ -381,6 +454,12 @@ func runHistory(work string, m *mdl, hs []hop) histOutcome {
 					tm2 = 1
 				}
 				ask(i, "putreuse-second", m.honestPutReq(id2, tm2, d), impl2)
+				if strings.HasPrefix(impl2, "PUTOK") {
+					expect[(h.ID+1)%len(ids)] = d
+					checkOthers(i, (h.ID+1)%len(ids))
+				} else {
+					delete(expect, (h.ID+1)%len(ids))
+				}
 				got2 := common.Safely(func() string {
 					b, e, err := c.GetBytes(id2)
 					if err != nil {
@@ -1028,14 +1107,14 @@ func runC05(f *common.Flags, res *common.Result, m *mdl) {
 		small := common.ShrinkList(hs, bad)
 		oo := runHistory(f.Work, m, small)
 		if oo.impl != nil {
-			res.Violate(*oo.impl)
+			violate(res, *oo.impl)
 		} else if o.impl != nil {
-			res.Violate(*o.impl)
+			violate(res, *o.impl)
 		}
 		if oo.corr != nil {
-			res.Violate(*oo.corr)
+			violate(res, *oo.corr)
 		} else if o.corr != nil {
-			res.Violate(*o.corr)
+			violate(res, *o.corr)
 		}
 	}
 	one := func(hs []hop, src string) {
@@ -1121,6 +1200,30 @@ func runC05(f *common.Flags, res *common.Result, m *mdl) {
 			}
 		}
 	}
+	// 1d. Put, damage of the stored output (same length and other), Put of the same content again
+	// (same id or another one), lookups; and two or three ids sharing one output of which one is
+	// re-pointed to another content
+	for _, ci := range []int{1, 3} {
+		ln := len(contents[ci])
+		dmgs := []hop{{Kind: "flip", K: "d", C: ci, N: 0}, {Kind: "flip", K: "d", C: ci, N: ln - 1}, {Kind: "repl", K: "d", C: ci, T: ci ^ 1},
+			{Kind: "trunc", K: "d", C: ci, N: ln - 1}, {Kind: "trunc", K: "d", C: ci, N: 0}, {Kind: "extend", K: "d", C: ci, Raw: []byte("z")}, {Kind: "delete", K: "d", C: ci},
+			{Kind: "write", K: "d", C: ci, Raw: contents[5]}}
+		for _, dm := range dmgs {
+			for _, again := range []int{0, 1} {
+				for _, pk := range []string{"put", "putbytes"} {
+					one([]hop{{Kind: pk, ID: 0, C: ci}, dm, {Kind: "getbytes", ID: 0}, {Kind: pk, ID: again, C: ci}, {Kind: "getbytes", ID: 0}, {Kind: "getfile", ID: 0},
+						{Kind: "getbytes", ID: again}, {Kind: "getfile", ID: again}}, "damage-then-put")
+				}
+			}
+		}
+		for _, other := range []int{ci ^ 1, 0, 5} {
+			for _, pk := range []string{"put", "putbytes"} {
+				one([]hop{{Kind: pk, ID: 0, C: ci}, {Kind: pk, ID: 1, C: ci}, {Kind: pk, ID: 0, C: other}, {Kind: "getbytes", ID: 1}, {Kind: "getfile", ID: 1}, {Kind: "getbytes", ID: 0}}, "shared-output-repointed")
+				one([]hop{{Kind: pk, ID: 0, C: ci}, {Kind: pk, ID: 1, C: ci}, {Kind: pk, ID: 2, C: ci}, {Kind: pk, ID: 1, C: other}, {Kind: pk, ID: 0, C: other},
+					{Kind: "getbytes", ID: 2}, {Kind: "getfile", ID: 2}, {Kind: "getbytes", ID: 0}, {Kind: "getbytes", ID: 1}}, "shared-output-repointed")
+			}
+		}
+	}
 	r := common.NewRNG(f.Seed)
 	// 2. the entry codec alone: raw entry, then Get / GetBytes / GetFile (with and without the output present)
 	nCodec, nHist, nTrace := 700, 1500, 120
@@ -1178,7 +1281,7 @@ func runC05(f *common.Flags, res *common.Result, m *mdl) {
 		})
 		res.Case("open", true)
 		if okOpen != "ok" {
-			res.Violate(common.Violation{Kind: "impl-violation", Oracle: "open-layout", Input: map[string]string{"dir": "fresh directory"},
+			violate(res, common.Violation{Kind: "impl-violation", Oracle: "open-layout", Input: map[string]string{"dir": "fresh directory"},
 				Detail: "cache.Open: " + okOpen, Key: "c05:open"})
 		}
 		os.RemoveAll(od)
